@@ -1,3 +1,5 @@
+import RossModel.Lemmas.ExactLength
+import RossModel.Lemmas.Layout
 import RossModel.Lemmas.Applies
 import RossModel.Lemmas.Accept
 import RossModel.Lemmas.Event
@@ -43,5 +45,20 @@ theorem C05_decode_reencode (pad : Pad) (k : Kind) (p : Packet) (e : Event) (h :
 decides exactly `CApplies` -/
 theorem C05_cappliesB_iff (r : CErr) (k : Kind) (p : Packet) : cappliesB r k p = true ↔ CApplies r k p :=
   Ross.cappliesB_iff r k p
+
+/-- a packet is accepted only with **exactly** the payload length the published layout gives the decoded value
+(`layoutLen`; for data events 6 + the declared length, for brightness events the length of the tagged variant) -/
+theorem C05_decode_ok_length (k : Kind) (p : Packet) (e : Event) (h : decode k p = .ok e) :
+    p.data.length = layoutLen e :=
+  Ross.decode_ok_length k p e h
+
+/-- `layoutLen` is the length of the published encoding -/
+theorem C05_layoutLen_spec (pad : Pad) (e : Event) : (encode pad e).data.length = layoutLen e := by
+  rw [Ross.encode_eq_layout]; exact Ross.specEncode_length pad e
+
+/-- non-vacuity: the inputs that crashed / were materialised by the pinned decoders are rejected with a reason -/
+example : decode .data ⟨false, 0x0101, []⟩ = .err .wrongSize ∧
+    decode .message ⟨false, 1, [0, 12, 0x12, 0x34, 0, 7, 7, 0, 0, 0, 0, 0, 0, 0]⟩ = .err .unknownEnumVariant ∧
+    decode .message ⟨false, 1, [0, 12, 0x12, 0x34, 0, 7, 3, 0, 0, 0, 2, 0, 0, 0]⟩ = .err .unknownEnumVariant := by decide
 
 end Ross.Props
